@@ -915,6 +915,41 @@ def dissolve_namedtuples(tree, ref):
             else:
                 index_of[f] = k
     cnt = [0]
+    # locals that certainly hold one of the new records: bound to NT(..), to an item of a class-level table whose values are all
+    # NT(..), or to the result of a function of this module whose every return is NT(..)
+    def nt_of(e):
+        if isinstance(e, ast.Call) and isinstance(e.func, ast.Name) and e.func.id in new_nt:
+            return e.func.id
+        return None
+    tables = {}
+    for q_, c_ in classes(tree):
+        for st_ in c_.body:
+            if isinstance(st_, ast.Assign) and len(st_.targets) == 1 and isinstance(st_.targets[0], ast.Name) and isinstance(st_.value, ast.Dict) and st_.value.values:
+                kinds = {nt_of(v_) for v_ in st_.value.values}
+                if len(kinds) == 1 and None not in kinds:
+                    tables[st_.targets[0].id] = kinds.pop()
+    producers = {}
+    for q_, f_ in functions(tree):
+        rets_ = [r_.value for r_ in _own_walk(f_) if isinstance(r_, ast.Return) and r_.value is not None]
+        kinds = {nt_of(r_) for r_ in rets_}
+        if rets_ and len(kinds) == 1 and None not in kinds:
+            producers[f_.name] = kinds.pop()
+    typed = {}
+    for q_, f_ in functions(tree):
+        for st_ in _own_walk(f_):
+            if isinstance(st_, ast.Assign) and len(st_.targets) == 1 and isinstance(st_.targets[0], ast.Name):
+                v_ = st_.value
+                k_ = nt_of(v_)
+                if k_ is None and isinstance(v_, ast.Subscript) and isinstance(v_.value, ast.Attribute) and v_.value.attr in tables:
+                    k_ = tables[v_.value.attr]
+                if k_ is None and isinstance(v_, ast.Call) and (_txt(v_.func).split('.')[-1] in producers):
+                    k_ = producers[_txt(v_.func).split('.')[-1]]
+                key_ = (id(f_), st_.targets[0].id)
+                typed[key_] = k_ if (key_ not in typed or typed[key_] == k_) else None
+    fn_of = {}
+    for q_, f_ in functions(tree):
+        for n_ in _own_walk(f_):
+            fn_of[id(n_)] = f_
 
     class T(ast.NodeTransformer):
         def visit_Call(self, n):
@@ -937,6 +972,12 @@ def dissolve_namedtuples(tree, ref):
             return n
 
         def visit_Attribute(self, n):
+            f_ = fn_of.get(id(n))
+            if isinstance(n.ctx, ast.Load) and isinstance(n.value, ast.Name) and f_ is not None and typed.get((id(f_), n.value.id)):
+                fields_ = [x for x, _ in new_nt[typed[(id(f_), n.value.id)]]]
+                if n.attr in fields_:
+                    cnt[0] += 1
+                    return ast.copy_location(ast.Subscript(value=n.value, slice=ast.Constant(value=fields_.index(n.attr)), ctx=ast.Load()), n)
             self.generic_visit(n)
             if isinstance(n.ctx, ast.Load) and index_of.get(n.attr) is not None and not (isinstance(n.value, ast.Name) and n.value.id in ('self', 'cls')):
                 cnt[0] += 1
@@ -955,6 +996,37 @@ def dissolve_namedtuples(tree, ref):
         if fn.returns is not None and any(isinstance(x, ast.Name) and x.id in new_nt for x in ast.walk(fn.returns)):
             fn.returns = None
     return total + cnt[0]
+
+
+def regroup_indexed_reads(tree, ref, ref_locals):
+    """r = f(..); a = r[0]; b = r[1]   (r a local the reference does not have, used nowhere else)   ->   a, b = f(..)"""
+    total = 0
+    for q, fn in functions(tree):
+        want = (ref_locals or {}).get(q)
+        if want is None:
+            continue
+        for block in _blocks(fn):
+            i = 0
+            while i < len(block):
+                st = block[i]
+                if isinstance(st, ast.Assign) and len(st.targets) == 1 and isinstance(st.targets[0], ast.Name) and st.targets[0].id not in want and isinstance(st.value, ast.Call):
+                    r = st.targets[0].id
+                    reads = []
+                    j = i + 1
+                    while j < len(block) and isinstance(block[j], ast.Assign) and len(block[j].targets) == 1 and isinstance(block[j].targets[0], (ast.Name, ast.Attribute)) and \
+                            isinstance(block[j].value, ast.Subscript) and isinstance(block[j].value.value, ast.Name) and block[j].value.value.id == r and \
+                            isinstance(block[j].value.slice, ast.Constant) and block[j].value.slice.value == len(reads):
+                        reads.append(block[j])
+                        j += 1
+                    uses = sum(1 for n in ast.walk(fn) if isinstance(n, ast.Name) and n.id == r)
+                    if len(reads) >= 2 and uses == 1 + len(reads):
+                        tgt = ast.Tuple(elts=[x.targets[0] for x in reads], ctx=ast.Store())
+                        block[i:j] = [ast.copy_location(ast.Assign(targets=[tgt], value=st.value, lineno=st.lineno), st)]
+                        total += 1
+                i += 1
+    if total:
+        ast.fix_missing_locations(tree)
+    return total
 
 
 def undo_dataclasses(tree, ref):
@@ -1063,10 +1135,19 @@ def undo_dispatch_tables(tree, ref):
                             tab_st, tab_block = local[_txt(a.value.func.value)]
                             key = a.value.args[0]
                             chain = None
-                            for k_, v_ in reversed(list(zip(tab_st.value.keys, tab_st.value.values))):
+                            groups = []                   # keys that share a handler form one branch (k == A or k == B)
+                            for k_, v_ in zip(tab_st.value.keys, tab_st.value.values):
+                                for g_ in groups:
+                                    if _txt(g_[1]) == _txt(v_):
+                                        g_[0].append(k_)
+                                        break
+                                else:
+                                    groups.append(([k_], v_))
+                            for ks_, v_ in reversed(groups):
                                 c_ = ast.Call(func=copy.deepcopy(v_), args=copy.deepcopy(call.args), keywords=copy.deepcopy(call.keywords))
                                 stmt = ast.Return(value=c_) if isinstance(callst, ast.Return) else ast.Expr(value=c_)
-                                node = ast.If(test=ast.Compare(left=copy.deepcopy(key), ops=[ast.Eq()], comparators=[copy.deepcopy(k_)]), body=[ast.copy_location(stmt, callst)],
+                                tests = [ast.Compare(left=copy.deepcopy(key), ops=[ast.Eq()], comparators=[copy.deepcopy(k_)]) for k_ in ks_]
+                                node = ast.If(test=tests[0] if len(tests) == 1 else ast.BoolOp(op=ast.Or(), values=tests), body=[ast.copy_location(stmt, callst)],
                                               orelse=[chain] if chain is not None else [])
                                 chain = ast.copy_location(node, b)
                             block[i:i + 2] = [chain]
@@ -2607,7 +2688,7 @@ def normalise(tree, path, ref_locals, model=None):
     if ref is None:
         return {}
     out = {}
-    for name, fn in (('moved', lambda: pull_back_moved(tree, ref, path, model)), ('match', lambda: lower_match(tree, ref)), ('enums', lambda: dissolve_enums(tree, ref)), ('namedtuples', lambda: dissolve_namedtuples(tree, ref)), ('dataclasses', lambda: undo_dataclasses(tree, ref)), ('dispatch', lambda: undo_dispatch_tables(tree, ref)),
+    for name, fn in (('moved', lambda: pull_back_moved(tree, ref, path, model)), ('match', lambda: lower_match(tree, ref)), ('enums', lambda: dissolve_enums(tree, ref)), ('namedtuples', lambda: dissolve_namedtuples(tree, ref)), ('regroup', lambda: regroup_indexed_reads(tree, ref, ref_locals)), ('dataclasses', lambda: undo_dataclasses(tree, ref)), ('dispatch', lambda: undo_dispatch_tables(tree, ref)),
                      ('annotations', lambda: strip_annotations(tree, ref)), ('imports', lambda: normalise_imports(tree, ref)), ('attributes', lambda: rename_attributes(tree, ref)),
                      ('methods', lambda: rename_methods(tree, ref)), ('formats', lambda: restyle_formats(tree, ref)), ('closures', lambda: restore_closures(tree, ref)), ('self', lambda: restore_self(tree, ref)), ('tuples', lambda: split_tuple_bindings(tree, ref)), ('suppress', lambda: expand_suppress(tree, ref)), ('constants', lambda: _constants(tree, ref)),
                      ('observability', lambda: drop_observability(tree, ref)), ('params', lambda: default_new_params(tree, ref) + default_new_params(tree, ref)), ('initliterals', lambda: inline_init_literals(tree, ref)),
